@@ -2,6 +2,7 @@
 
 #include <cmath>
 #include <cstdio>
+#include <cstring>
 
 using namespace stim;
 
@@ -110,4 +111,16 @@ SVH_CMD(gatetable) {
             out << "HASH " << h << " " << (int)e.id << " " << e.expected_name << "\n";
         }
     }
+}
+
+// rss: peak and current resident set size of the harness process in kB (for "memory proportional to input" checks)
+SVH_CMD(rss) {
+    FILE *f = fopen("/proc/self/status", "r");
+    char line[256];
+    while (f && fgets(line, sizeof(line), f)) {
+        if (strncmp(line, "VmHWM:", 6) == 0 || strncmp(line, "VmRSS:", 6) == 0) {
+            out << line;
+        }
+    }
+    if (f) fclose(f);
 }
